@@ -4,11 +4,19 @@ import NanoVerif.Driver.Functions
 /-! line-protocol driver of C06 (must not import Mathlib, directly or indirectly) -/
 open NanoVerif
 
-def handle (fam : String) (rest : List String) : Option String :=
+/-- a trailing `#tag` is the generator's bookkeeping (which corner case the op was built to hit) -/
+def dropTag (ts : List String) : List String :=
+  match ts.getLast? with
+  | some t => if t.startsWith "#" then ts.dropLast else ts
+  | none => ts
+
+def handle (fam : String) (rest0 : List String) : Option String :=
+  let rest := dropTag rest0
   match fam with
   | "loss" => Driver.Loss.handle rest
   | "fn" => Driver.Functions.handleFn rest
   | "ct" => Driver.Functions.handleCt rest
+  | "fbase" => Driver.Functions.handleFbase rest
   | _ => none
 
 def main : IO Unit := DriverMain.run handle
